@@ -3,7 +3,8 @@
     those dumped from the compiled Go code (Gen/Params.v); the [pin_*] lemmas tie them to
     the documented values and break when the code's constants change. *)
 From Coq Require Import ZArith Bool Lia.
-From WW Require Import Gen.Params Model.SessionTime Model.Entry Proofs.SessionTimeP.
+From Coq Require Import NArith List.
+From WW Require Import Gen.Params Base.AMap Model.SessionTime Model.Machine Model.Entry Proofs.SessionTimeP Proofs.MachineP Proofs.MachineModeP.
 Open Scope Z_scope.
 
 Lemma pin_refresh_leeway : leeway P0 = 300 * second. Proof. reflexivity. Qed.
@@ -85,6 +86,33 @@ Proof.
   - intros H. unfold v, verbose_of; cbn. now rewrite H.
 Qed.
 Print Assumptions c08_verbose_consistent.
+
+(** Mode rules, for every run of the session machine (any history, schedule, fault sequence): a request of a kind
+    that never refreshes - session info, SSO-proxy requests, every logout variant, and proxied / forward-auth
+    requests when the mode disables automatic refresh (SSO without forward-auth) - is only ever reading, deleting
+    or done: it takes no lock, makes no grant, writes nothing. Grants come only from proxied / forward-auth requests
+    (automatic) and the refresh endpoint (manual). *)
+Theorem c08_only_refreshing_kinds_refresh : forall c es tau tid th,
+  alookup tid (m_ts (run_events c (init_state tau) es)) = Some th ->
+  never_refreshes c (t_kind th) -> simple_phase (t_phase th).
+Proof. exact only_refreshing_kinds_refresh. Qed.
+Print Assumptions c08_only_refreshing_kinds_refresh.
+
+(** No grant during the cooldown, without a refresh token, or for a session that is not valid at that instant. *)
+Theorem c08_grant_needs_rt_and_no_cooldown : forall c w t f old tok start w' t' o old' cur tok' start',
+  t_phase t = PReread old tok start -> step c w t f = (w', t', o) -> t_phase t' = PIdp old' cur tok' start' ->
+  exists e, store_get w (cookie_key (t_cookie t)) = Some e /\
+            classify_entry (cookie_dek (t_cookie t)) e (w_clock w) = GOk cur /\
+            has_rt cur = true /\ on_cooldown (c_tp c) (sd_md cur) (w_clock w) = false /\
+            t_cancel t = false /\ f <> FStore.
+Proof. exact grant_decision. Qed.
+Print Assumptions c08_grant_needs_rt_and_no_cooldown.
+
+(** Manual refresh during the cooldown is idempotent: 200 with the unchanged record, no operation. *)
+Theorem c08_manual_refresh_idempotent : forall c d now,
+  can_refresh c d now = false -> start_refresh c KRefresh d now = PDone (OMeta 200 d now).
+Proof. exact manual_refresh_idempotent. Qed.
+Print Assumptions c08_manual_refresh_idempotent.
 
 (** Non-vacuity: a concrete one-hour token, 56 minutes old, is due and not on cooldown. *)
 Example c08_nonvacuous :
